@@ -4,7 +4,7 @@ from pathlib import Path
 
 VERIF = Path(__file__).resolve().parents[2]
 REPO = Path(os.environ.get('OF_REPO', '/repo'))
-LEAN = VERIF / 'lean'
+LEAN = Path(os.environ.get('OFVERIF_LEAN', VERIF / 'lean'))
 DRIVER_BIN = LEAN / '.lake' / 'build' / 'bin' / 'ofdriver'
 ALLOWED_AXIOMS = {'propext', 'Classical.choice', 'Quot.sound'}
 FORBIDDEN = re.compile(r'\b(sorry|admit|native_decide|bv_decide|implemented_by)\b|^\s*axiom\s|\bunsafe\s|maxHeartbeats\s+0')
@@ -22,6 +22,8 @@ def env_setup():
     os.environ.setdefault('LOG_PATH', 'false')
     os.environ.setdefault('LOG_LEVEL', 'CRITICAL')
     os.environ['OPENFILTER_VERIF'] = '1'
+    if str(REPO) != '/repo' and str(REPO) not in sys.path:   # scratch copies (mutant self-tests): import openfilter from there
+        sys.path.insert(0, str(REPO))
 
 
 # ---------------------------------------------------------------------------------------------- Lean
